@@ -9,3 +9,4 @@ CONSTANTS
   AgreeTab = 6
   MaxLen = 3
   Dups = TRUE
+  Slim = FALSE
